@@ -533,7 +533,7 @@ def check_groups(env, nviews):
         mtname = rng.choice(["OrderedList", "OrderedList", "UnorderedList", "Count", "Best", "default"])
         mt = {"default": None}.get(mtname, getattr(sorting, mtname, None))
         how = rng.choice(["facet.maptype", "search.maptype"]) if mt is not None else "default"
-        sortedby = rng.choice([None, None, "o", "id"])
+        sortedby = rng.choice([None, None, "o", "id", "st"])
         k = rng.choice([None, None, 2, 5])
         if overlap and sp.kind == "overlap:stored:k" and any(env.doc(dn).get("k") is None for dn in env.matched):
             # StoredFieldFacet(allow_overlap) calls value.split(): a missing stored value is None (documented precondition: the field holds a string)
@@ -553,19 +553,39 @@ def check_groups(env, nviews):
                     facet.maptype = mt
             if how == "search.maptype":
                 kw["maptype"] = mt
-            if sortedby:
+            if sortedby == "st":
+                kw["sortedby"] = sorting.StoredFieldFacet("st")     # key None for documents without the stored value
+            elif sortedby:
                 kw["sortedby"] = sortedby
             r = s.search(q, limit=k, groupedby=facet, **kw)
-            return r, r.groups()
+            return r, r.groups(), [h.docnum for h in r]
         ok, val = env.guard("group", extra, run)
         if not ok:
             continue
-        r, groups = val
+        r, groups, hits = val
         # the ranking the groups refer to
-        if sortedby:
+        if sortedby == "st":
+            # documents without the key sit at one end (either): take the end from the observed unlimited order
+            present = sorted((dn for dn in env.matched if env.doc(dn).get("st") is not None), key=lambda dn: (env.doc(dn)["st"], dn))
+            absent = [dn for dn in env.matched if env.doc(dn).get("st") is None]
+            ok2, allhits = env.guard("group", extra, lambda: [h.docnum for h in s.search(q, limit=None, sortedby=sorting.StoredFieldFacet("st"))])
+            if not ok2:
+                continue
+            if allhits == absent + present:
+                ranking = absent + present
+            elif allhits == present + absent:
+                ranking = present + absent
+            else:
+                env.fail("group", "order:stored-with-missing", dict(extra, observed=env.ids(allhits), expected_either=[env.ids(absent + present), env.ids(present + absent)]))
+                continue
+            ctx.count("c14.group.sorted_by_none_keys")
+        elif sortedby:
             ranking = sorted(env.matched, key=lambda dn: (env.doc(dn)[sortedby], dn))
         else:
             ranking = env.full
+        if hits != (ranking if k is None or not sortedby else ranking[:k]) and (sortedby or k is None):
+            env.fail("group", "hits-with-groupedby", dict(extra, observed=env.ids(hits), expected=env.ids(ranking)))
+            continue
         # model groups
         model = {}
         nokey = []
@@ -689,7 +709,7 @@ def check_collapse(env, nviews):
             keyf = "grp"
         n = rng.choice([1, 1, 2, 3])
         k = rng.choice([None, None, 1, 2, 3, 5, 10])
-        sortedby = rng.choice([None, None, "o", "id", "n"])
+        sortedby = rng.choice([None, None, "o", "id", "n", "st"])
         order = rng.choice([None, None, None, "o", "o-rev"])
         kw = {"collapse": keyf, "collapse_limit": n}
         if rng.random() < 0.2:
@@ -699,7 +719,17 @@ def check_collapse(env, nviews):
             kw["filter"] = query.Term("t", fw)
         if sortedby == "n" and any(env.doc(dn).get("n") is None for dn in env.matched):
             sortedby = "o"
-        if sortedby:
+        if sortedby == "st":
+            kw["sortedby"] = sorting.StoredFieldFacet("st")
+            present = sorted((dn for dn in env.matched if env.doc(dn).get("st") is not None), key=lambda dn: (env.doc(dn)["st"], dn))
+            absent = [dn for dn in env.matched if env.doc(dn).get("st") is None]
+            ok2, allhits = env.guard("collapse", {"view": "sortedby=StoredFieldFacet('st')"},
+                                     lambda: [h.docnum for h in s.search(q, limit=None, sortedby=sorting.StoredFieldFacet("st"))])
+            if not ok2 or allhits not in (absent + present, present + absent):
+                continue     # the sort family reports it
+            ranking = allhits
+            ctx.count("c14.collapse.sorted_by_none_keys")
+        elif sortedby:
             kw["sortedby"] = sortedby
             ranking = sorted(env.matched, key=lambda dn: (env.doc(dn)[sortedby], dn))
         else:
